@@ -106,6 +106,12 @@ CustomPress(K, c) ==
     [] c.c = "unicode" -> [K EXCEPT !.out = Append(@, Ev("U", c.ch))]
     [] c.c = "mousetap" -> [K EXCEPT !.out = @ \o <<Ev("bd", c.btn), Ev("bu", c.btn)>>]
     [] c.c = "lrld" -> [K EXCEPT !.lrr = TRUE]
+    \* src: mod.rs CustomAction::MWheel press arm: a fresh ScrollState (vertical / horizontal slot), first event on the
+    \* next handle_scrolling; MWheelNotch: one event at once
+    [] c.c = "mwheel" ->
+         LET st == <<[dir |-> c.dir, dist |-> c.distance, ticks |-> 0, iv |-> c.interval]>> IN
+         IF c.dir \in {"Up", "Down"} THEN [K EXCEPT !.scroll = st] ELSE [K EXCEPT !.hscroll = st]
+    [] c.c = "mwheelnotch" -> [K EXCEPT !.out = Append(@, Ev("sc", c.dir \o ",120"))]
     \* src: mod.rs CustomAction::CapsWord arm: Overwrite starts afresh, Toggle ends an active caps-word
     [] c.c = "capsword" ->
          LET fresh == <<[cap |-> c.cap, nt |-> c.nonterm, T |-> c.timeout, ticks |-> c.timeout]>> IN
@@ -146,6 +152,12 @@ CustomReleaseAll(K, cs, pbtn) ==
        CASE c.c = "mouse" -> CustomReleaseAll(K, Tail(cs), c.btn)
          [] c.c = "fakekey_rel" ->
               CustomReleaseAll([K EXCEPT !.L = FakeKeyOp(@, c.op, c.x, c.y)], Tail(cs), pbtn)
+         \* src: mod.rs CustomAction::MWheel release arm: the slot is cleared only if it still scrolls in this direction
+         [] c.c = "mwheel" ->
+              CustomReleaseAll(IF c.dir \in {"Up", "Down"}
+                               THEN [K EXCEPT !.scroll = IF @ # <<>> /\ @[1].dir = c.dir THEN <<>> ELSE @]
+                               ELSE [K EXCEPT !.hscroll = IF @ # <<>> /\ @[1].dir = c.dir THEN <<>> ELSE @],
+                               Tail(cs), pbtn)
          [] c.c = "cancel_macro_rel" ->
               CustomReleaseAll([K EXCEPT !.mcd = 0, !.L.seqs = <<>>,
                                          !.L.states = SelectSeq(@, LAMBDA s : s.t \notin (IF Bug = "cancel_keeps_fk" THEN {"rs"}
@@ -231,8 +243,21 @@ HeldVkeys(L, vpr, acc) ==
        IF v.d = 0 THEN HeldVkeys(EventL(L, Qd(FALSE, v.x, v.y)), Tail(vpr), acc)
        ELSE HeldVkeys(L, Tail(vpr), Append(acc, v))
 
+\* src: mod.rs handle_scrolling (right after handle_keystate_changes): an event when the counter is 0, then
+\* interval - 1 further ticks (the parser refuses interval 0)
+ScrollStep(st, out) ==
+  IF st = <<>> THEN [st |-> st, out |-> out]
+  ELSE IF st[1].ticks = 0
+  THEN [st |-> <<[st[1] EXCEPT !.ticks = SatSub(st[1].iv, 1)]>>,
+        out |-> Append(out, Ev("sc", st[1].dir \o "," \o ToString(st[1].dist)))]
+  ELSE [st |-> <<[st[1] EXCEPT !.ticks = @ - 1]>>, out |-> out]
+HandleScrolling(K) ==
+  LET v == ScrollStep(K.scroll, K.out)
+      h == ScrollStep(K.hscroll, v.out)
+  IN [K EXCEPT !.scroll = v.st, !.hscroll = h.st, !.out = h.out]
+
 TickStates(K) ==
-  LET K0 == HandleKeystateChanges(K)
+  LET K0 == HandleScrolling(HandleKeystateChanges(K))
       \* src: mod.rs:873 tick_sequence_state (after scrolling / mouse movement, before the idle timers)
       K1 == IF ~SqOn THEN K0
             ELSE LET st == SqTick(K0.sq, K0.out) IN
@@ -354,7 +379,9 @@ Proj(K) ==
     ost |-> L.os.timeout, osrn |-> L.os.rnt, osp |-> L.os.pticks, osi |-> L.os.ignore,
     lpc |-> L.lpc, lpt |-> L.lpt, nseq |-> Len(L.seqs), naq |-> Len(L.aq), dl |-> L.dl,
     prev |-> K.prev, tsi |-> K.tsi, nwfi |-> Cardinality(K.wfi), nvpr |-> Len(K.vpr),
-    cw |-> IF K.cw = <<>> THEN <<>> ELSE <<K.cw[1].ticks>> ]
+    cw |-> IF K.cw = <<>> THEN <<>> ELSE <<K.cw[1].ticks>>,
+    scr |-> <<IF K.scroll = <<>> THEN <<>> ELSE <<K.scroll[1].dir, K.scroll[1].ticks>>,
+              IF K.hscroll = <<>> THEN <<>> ELSE <<K.hscroll[1].dir, K.hscroll[1].ticks>>>> ]
   @@ DmProj(K.dyn)
   @@ (IF SqOn THEN [sq |-> SqProj(K.sq)] ELSE [zz \in {} |-> 0])
   @@ (IF HasChv2 THEN [cv2i |-> CvIsIdle(K.L.chv2), cv2a |-> CvAccepts(K.L.chv2)] ELSE [zz \in {} |-> 0])
